@@ -180,7 +180,7 @@ def verdictC01 (cfg : LiveCfg) (adm : Option Bool) (pv : Bool) (op : ExecOp) (o 
   else if o.runCalls ≠ 0 then some "run function invoked although the call is not admitted"
   else
     let retOk := match o.res with
-      | .ret (some .circuitOpen) => o.fbCalls = 0
+      | .ret (some .circuitOpen) => o.fbCalls = 0 ∨ (o.fbCalls = 1 ∧ o.fbArg == some .circuitOpen ∧ some .circuitOpen == fbValue op o.runCalls)
       | .ret r => o.fbCalls = 1 ∧ o.fbArg == some .circuitOpen ∧ r == fbValue op o.runCalls
                ∨ (o.fbCalls = 0 ∧ r == some .concLimit ∧ op.fb.isSome ∧ throttled cfg.fbMaxConc)
       | .panic _ => o.fbCalls = 1 ∧ o.fbArg == some .circuitOpen
